@@ -15,6 +15,9 @@ func (m *FixPeriodPlanner) IsMatrix() bool {
 }
 func (m *FixPeriodPlanner) Process(ctx *shared.PlannerContext,
 	in chan []shared.LogEntry) (chan []shared.LogEntry, error) {
+	if ctx.Step.Nanoseconds() <= 0 || m.Duration.Nanoseconds() <= 0 {
+		return nil, &shared.NotSupportedError{Msg: "step and range duration must be positive"}
+	}
 	_from := ctx.From.UnixNano()
 	_to := ctx.To.UnixNano()
 	ctx.From = ctx.From.Truncate(m.Duration)
@@ -55,6 +58,7 @@ func (m *FixPeriodPlanner) Process(ctx *shared.PlannerContext,
 
 	go func() {
 		defer close(res)
+		defer shared.TamePanic(res)
 		for entries := range _in {
 			for _, entry := range entries {
 				if entry.Fingerprint != fingerprint {
